@@ -1,6 +1,6 @@
 (* Check/WireCheck.v — correspondence and monitor predicates for C04/C06, evaluated
    by vm_compute on case files written by the Go harness (harness/cmd/wire). *)
-From Storrent Require Import Base.Bytes Base.Bencode Model.Wire.
+From Storrent Require Import Model.DepthLimiter Base.Bytes Base.Bencode Model.Wire.
 Open Scope N_scope.
 
 (* compact rendering of long uniform runs in case files *)
@@ -168,3 +168,7 @@ Definition bad_monitor (cs : list wcase) : list N :=
   map w_id (filter (fun c => negb (monitor c) && negb (known_bencode_alloc c)) cs).
 Definition known_monitor (cs : list wcase) : list N :=
   map w_id (filter known_bencode_alloc cs).
+
+(* the depth limiter on its own: the Go reader lets an input through exactly when the model does *)
+Definition bad_lim (cs : list (N * bytes * bool)) : list N :=
+  map (fun c => fst (fst c)) (filter (fun c => negb (Bool.eqb (lim_passes (snd (fst c))) (snd c))) cs).
